@@ -2,6 +2,7 @@ import HexVerif.Xcmp.Compile
 import HexVerif.Lemmas.XcmpV1
 import HexVerif.Lemmas.XcmpV2
 import HexVerif.Lemmas.IsaAccess
+import HexVerif.Properties.C09
 import Drivers.Util
 /-!
   Line-protocol driver for the Lean model of xcmp (`Xcmp.stages`, `Xcmp.compile`); mirrors
@@ -188,6 +189,13 @@ def handleAcc (fuel stdin files prog : String) : String :=
         | .fuel => "fuel exit=0"
       s!"acc {st} cycles={k} maxfetch={natToHex d.maxfetch} maxload={natToHex d.maxload} maxstore={natToHex d.maxstore} oob={d.oob} nfetch={d.nfetch} nload={d.nload} nstore={d.nstore}"
 
+/-- `R=`: is the program inside the residual of `C09_pipeline_partial` (a compile stage ends in an outcome without a
+    C++ counterpart, or the directive list fails `dirsOkB`)?  Expected: always 0. -/
+def residualField (P : X.Program) : String :=
+  match stages P with
+  | .error e => if Xcmp.CDiag.named e then "0" else "1"
+  | .ok st => if Xcmp.dirsOkB st.optimised then "0" else "1"
+
 def handle (line : String) : String :=
   match (if line.startsWith "acc|" then line.splitOn "|" else []) with
   | [_, fuel, stdin, files, prog] => handleAcc fuel stdin files prog
@@ -195,7 +203,7 @@ def handle (line : String) : String :=
   match parseProgram line with
   | .error w => "bad-input " ++ w
   | .ok P =>
-    (fun r => r ++ " V=" ++ v1Field P ++ " W=" ++ v2Field P ++ " X=" ++ v3Field P) <|
+    (fun r => r ++ " V=" ++ v1Field P ++ " W=" ++ v2Field P ++ " X=" ++ v3Field P ++ " R=" ++ residualField P) <|
     match stages P with
     | .error e => let c := "!" ++ e.className; s!"I={c} L={c} O={c} S={c} B={c}"
     | .ok s =>
